@@ -44,11 +44,13 @@ PROPS = {
     },
     "C08": {
         "lean": ["AriVerif.Props.C08"],
-        "gen": ["Exc"],
+        "gen": ["Exc", "Docs"],
         "streams": [s_wire.stream_exc, s_wire.stream_meta],
         "trusted": [KERNEL, HARNESS, "harness/extract.py for Gen/Exc.lean (tables read off the AST: _EXCEPTIONS_MAP, class statements, "
                     "designated classes per write_* function), mitigated by the full-matrix differential",
-                    "Spec.ariCode (the designation table) is hand-written from the property text and the adapters' :raises clauses",
+                    "Spec.ariCode (the designation table) is hand-written from the property text; c08_doc_sound/c08_doc_complete tie it to the :raises "
+                    "clauses of interfaces/*.py and the adapter calls of server.py's _on_* handlers (Gen/Docs.lean, regenerated every run); MDA is the one "
+                    "documented exception (docstring lists no exception)",
                     "modelled, not verified: Python's `except (classes)` matching = 'some class of the MRO is designated'; str(type(e)) lookup = exact class"],
         "assumptions": ["single inheritance among exception classes (the translator rejects multiple inheritance in interfaces/*.py)",
                         "exception payload attributes are well-typed (int code, str/None messages)"],
